@@ -351,7 +351,7 @@ fn loc_sym(loc: &str) -> Sx { sym(&loc.replace(' ', "_").replace("/repo/", "")) 
 /// returns (observation, implementation-only extras, schedule)
 pub fn run_case(case: &Sx) -> (Sx, Sx, Sx) {
     let c = case.clone();
-    let r = in_fresh_thread(move || {
+    let r = in_fresh_thread_limited(move || {
         let l = c.as_lst();
         let mut obs = vec![sym("obs")];
         let mut extra = vec![sym("extra")];
@@ -422,7 +422,7 @@ pub fn run_case(case: &Sx) -> (Sx, Sx, Sx) {
         match post { Ok(x) => obs.push(x), Err(_) => { let e = err_of_panic(&mut extra, "post"); obs.push(e); } }
         (lst(obs), lst(extra), lst(sched))
     });
-    r.unwrap_or_else(|_| (sym("harness-thread-panic"), sym("harness-thread-panic"), lst(vec![sym("sched")])))
+    r.unwrap_or_else(|e| if e.0 == "timeout" { (timeout_obs(), lst(vec![sym("extra"), sym("timeout")]), lst(vec![sym("sched")])) } else { (sym("harness-thread-panic"), sym("harness-thread-panic"), lst(vec![sym("sched")])) })
 }
 
 pub fn main(a: &Args) {
